@@ -211,6 +211,14 @@ void run_t(vf::Ctx& c)
     {
         static int const ordinary[] = {0, 1, 2, 4};
         cfg.fn.family = ordinary[t.pick(4)];
+        // the stop position does not depend on the overall magnitude of the integrand, as long as squares stay representable
+        switch (t.pick(4))
+        {
+        case 1: cfg.fn.scale = static_cast<T>(std::pow(10.0L, -static_cast<long double>(std::numeric_limits<T>::max_exponent10) / 4)); break; // 1e-9 / 1e-77 / 1e-1233
+        case 2: cfg.fn.scale = static_cast<T>(std::pow(10.0L, static_cast<long double>(std::numeric_limits<T>::max_exponent10) / 4)); break;
+        default: break;
+        }
+        if (cfg.fn.scale != T(1)) { c.label("extreme-magnitude"); }
         for (auto& x : calls) { if (x < 4) { x = 4; } }
         T const target = static_cast<T>(std::pow(10.0L, -3.0L * t.unit()));
         std::size_t const k0 = n ? t.pick(std::min<std::size_t>(n, 3)) : 0;
